@@ -5178,7 +5178,14 @@ class _InstancePrivate:
         self.values = {} if values is None else values
 
     def __getstate__(self):
-        return {slot: getattr(self, slot) for slot in self.__slots__}
+        state = {slot: getattr(self, slot) for slot in self.__slots__}
+        # The batching flag and the queued events and watchers describe a
+        # dispatch in progress on the object being copied, not the copy: a
+        # copy made inside a batch would otherwise stay in batch mode for ever
+        state['parameters_state'] = {
+            "BATCH_WATCH": False, "TRIGGER": False, "events": [], "watchers": []
+        }
+        return state
 
     def __setstate__(self, state):
         for k, v in state.items():
